@@ -216,10 +216,34 @@ func appendSnapshotFlavors(b []byte, s *slip.Scope) []byte {
 			fa = append(fa, f)
 		}
 	}
+	// By name so that two snapshots of the same session give the same text,
+	// then every flavor after the flavors it is built from.
 	sort.Slice(fa, func(i, j int) bool {
-		return fa[j].Inherits(fa[i])
+		return fa[i].Name() < fa[j].Name()
 	})
+	listed := map[*flavors.Flavor]bool{}
 	for _, f := range fa {
+		listed[f] = true
+	}
+	ordered := make([]*flavors.Flavor, 0, len(fa))
+	placed := map[*flavors.Flavor]bool{}
+	var place func(f *flavors.Flavor)
+	place = func(f *flavors.Flavor) {
+		if placed[f] {
+			return
+		}
+		placed[f] = true
+		for _, c := range f.InheritsList() {
+			if cf, ok := c.(*flavors.Flavor); ok && listed[cf] {
+				place(cf)
+			}
+		}
+		ordered = append(ordered, f)
+	}
+	for _, f := range fa {
+		place(f)
+	}
+	for _, f := range ordered {
 		b = append(b, '\n')
 		b = pp.Append(b, s, f.LoadForm())
 		// The methods defined on the flavor itself, inherited ones come with
